@@ -9,7 +9,7 @@ static mut CALLS: u32 = 0; static mut TAG: u8 = 0; static mut A0: f64 = 0.0; sta
 fn record1(tag: u8, x: f64) -> f64 { let r: f64 = kani::any(); unsafe { CALLS += 1; TAG = tag; A0 = x; RES = r; } r }
 fn record2(tag: u8, x: f64, y: f64) -> f64 { let r: f64 = kani::any(); unsafe { CALLS += 1; TAG = tag; A0 = x; A1 = y; RES = r; } r }
 fn s_sqrt(x: f64) -> f64 { record1(1, x) }  fn s_ln(x: f64) -> f64 { record1(14, x) }  fn s_exp(x: f64) -> f64 { record1(15, x) }
-fn s_powf(x: f64, y: f64) -> f64 { record2(20, x, y) }  fn s_log(x: f64, y: f64) -> f64 { record2(21, x, y) }
+fn s_powf(x: f64, y: f64) -> f64 { record2(20, x, y) }  fn s_log(x: f64, y: f64) -> f64 { record2(21, x, y) }  fn s_log2(x: f64) -> f64 { record1(17, x) }
 
 // @obligation owners=C06,C15 fn=eval_i64::ast::eval/Add
 #[kani::proof]
@@ -75,7 +75,7 @@ fn step_modulo() { let sa: i8 = kani::any(); let sb: i8 = kani::any(); let a = s
         Some(m) => assert!(b != 0 && (m == 0 || (m < 0) == (a < 0)) && m.unsigned_abs() < b.unsigned_abs() && a.wrapping_sub(m).wrapping_rem(b) == 0, "remainder with the sign of the dividend"),
         None => assert!(b == 0, "Err only for a zero divisor") } }
 
-// @obligation owners=C06,C01 fn=eval_i64::ast::eval/Divide+Modulo bounded="the 16 corner operand pairs from {MIN, -1, 0, MAX}^2 (concrete)"
+// @obligation owners=C06,C01 fn=eval_i64::ast::eval/Divide+Modulo tier=thorough bounded="the 16 corner operand pairs from {MIN, -1, 0, MAX}^2 (concrete)"
 #[kani::proof]
 fn step_div_mod_corners() {
     let c = [i64::MIN, -1, 0, i64::MAX];
@@ -105,8 +105,9 @@ fn step_exp() { let a: i64 = kani::any();
 // @obligation owners=C10 fn=eval_i64::ast::eval/Lb
 #[kani::proof]
 #[kani::stub(f64::log, s_log)]
+#[kani::stub(f64::log2, s_log2)]
 fn step_lb() { let a: i64 = kani::any();
-    match ok(eval(Node::Lb(num(a)))) { Some(v) => assert!(unsafe { CALLS == 1 && TAG == 21 && same(A0, a as f64) && same(A1, 2.0) && v == RES as i64 }), None => assert!(false, "never Err") } }
+    match ok(eval(Node::Lb(num(a)))) { Some(v) => assert!(unsafe { CALLS == 1 && ((TAG == 21 && same(A1, 2.0)) || TAG == 17) && same(A0, a as f64) && v == RES as i64 }, "lb(x) = log(x, 2) or log2(x), truncated"), None => assert!(false, "never Err") } }
 // @obligation owners=C10 fn=eval_i64::ast::eval/Log
 #[kani::proof]
 #[kani::stub(f64::log, s_log)]
